@@ -40,7 +40,7 @@ def uni_or_empty(a):
 # (a) writers
 # ============================================================================
 def gen_writers(rng, tier):
-    for _ in range(n_cases(tier, 40, 900)):
+    for _ in range(n_cases(tier, 80, 1200)):
         u, desc, ctx = new_universe(rng)
         for _ in range(5):
             try:
@@ -149,11 +149,11 @@ def gen_dtrees(rng, tier, n_uni, per_uni):
     for u, ctx, desc, tree, kind in documents(rng, tier, n_uni, per_uni, mutate=False):
         yield D.plain_dtree(tree)
         for _ in range(2):
-            yield D.layout(rng, tree)
+            yield D.layout(rng, tree, allow_default=True)
 
 
 def gen_pump(rng, tier):
-    for d in gen_dtrees(rng, tier, n_cases(tier, 30, 700), 3):
+    for d in gen_dtrees(rng, tier, n_cases(tier, 50, 900), 3):
         if rng.random() < 0.5:
             random_stores(rng, d)
         yield {"doc": D.dtree_strip(d), "_print": d}
@@ -165,7 +165,7 @@ def impl_pump(a):
 
 def gen_iterwalk(rng, tier):
     wk = D.well_known()
-    for d in gen_dtrees(rng, tier, n_cases(tier, 30, 700), 3):
+    for d in gen_dtrees(rng, tier, n_cases(tier, 50, 900), 3):
         if rng.random() < 0.3:
             random_stores(rng, d)
         yield {"doc": D.dtree_strip(d), "well_known": wk, "_print": d}
@@ -176,7 +176,7 @@ def impl_iterwalk(a):
 
 
 def gen_inscope(rng, tier):
-    for d in gen_dtrees(rng, tier, n_cases(tier, 30, 700), 3):
+    for d in gen_dtrees(rng, tier, n_cases(tier, 50, 900), 3):
         yield {"doc": D.dtree_strip(d), "_print": d}
 
 
@@ -268,7 +268,21 @@ def covered_writers(a, msg):
     return None
 
 
-NOISES = [[], [], [], [], [], [], ["between"], ["prolog"], ["text"], ["tail"], ["between", "prolog"]]
+NOISES = [[], [], [], [], [], [], [], ["between"], ["prolog"], ["text_c"], ["tail_c"], ["text_pi"], ["tail_pi"], ["between", "prolog"]]
+CHAR_NOISE = {"text_c", "tail_c", "text_pi", "tail_pi"}
+
+
+def default_ok(desc, tree):
+    """a default namespace may be introduced: nothing in the document is read as a QName"""
+    if '"qname"' in json.dumps(desc):
+        return False
+
+    def go(n):
+        if any(k == XSI_TYPE or ":" in v for k, v in n["a"]) or ":" in (n["t"] or ""):
+            return False
+        return all(go(c) for c in n["c"])
+
+    return go(tree)
 
 
 def clean_tree(xml: str):
@@ -280,10 +294,10 @@ def clean_tree(xml: str):
 
 
 def gen_handlers(rng, tier, for_corr=False):
-    for u, ctx, desc, tree, kind in documents(rng, tier, n_cases(tier, 30, 700), 3, mutate=True):
+    for u, ctx, desc, tree, kind in documents(rng, tier, n_cases(tier, 60, 1000), 3, mutate=True):
         lay = rng.random()
         try:
-            d = D.plain_dtree(tree) if lay < 0.3 else D.layout(rng, tree)
+            d = D.plain_dtree(tree) if lay < 0.3 else D.layout(rng, tree, allow_default=default_ok(desc, tree))
         except ValueError:
             continue
         noise = rng.choice(NOISES)
@@ -291,7 +305,7 @@ def gen_handlers(rng, tier, for_corr=False):
         xml = D.print_dtree(d, sub if rng.random() < 0.8 else None, set(noise), decl=rng.random() < 0.3)
         if for_corr:
             # the listed findings live in the oracle's stream only
-            if set(noise) & {"text", "tail"} or wrapper_declares(xml):
+            if wrapper_declares(xml):
                 continue
             yield {"ctx": ctx, "tree": clean_tree(xml), "xml": xml, "clazz": "Root", "config": rng.choice(CONFIGS),
                    "noise": noise, "kind": kind, "desc": desc, "_uni": u.modname}
@@ -316,7 +330,7 @@ def impl_parse_all(a):
     if a.get("kind") == "valid" and cfg.get("fail_on_unknown_properties", True) and "ok" in ref:
         _, en, mn = D.real_events(u, clazz, xml, "native", "bytes", cfg)
         _, el, ml = D.real_events(u, clazz, xml, "lxml", "bytes", cfg)
-        ev = en == el and mn == ml
+        ev = (en == el and mn == ml) or bool(set(a.get("noise") or []) & {"text_pi", "tail_pi"})
     return {"results": res, "events_equal": ev, "et_excluded": prefix_sensitive([ref, res["lxml/bytes"]], xml)}
 
 
@@ -324,8 +338,15 @@ def cmp_parse_all(mo, io, a):
     if "results" not in io:
         return False
     ref = io["results"]["native/bytes"]
+    noise = set(a.get("noise") or [])
     for k, r in io["results"].items():
         if k.startswith("native/et_") and io["et_excluded"]:
+            continue
+        # listed finding C08-lxml-pi-text: a PI inside character data (all lxml sources),
+        # a comment inside character data (lxml tree / element sources)
+        if noise & {"text_pi", "tail_pi"} and k.startswith("lxml/"):
+            continue
+        if noise & {"text_c", "tail_c"} and k in ("lxml/lxml_tree", "lxml/lxml_element"):
             continue
         if r != ref:
             return False
@@ -333,12 +354,18 @@ def cmp_parse_all(mo, io, a):
         return False
     if unsupported(mo):
         return True
+    if a.get("kind") == "inject_known":
+        # a known class injected under a parent of another namespace is bound with the metadata the shared
+        # XmlContext cached first (subject of C14); the model builds it per parent namespace. Only the
+        # agreement of the back-ends is checked on these documents.
+        return True
     return mo == ref
 
 
 def classify_parse_all(a, o):
     r = o.get("results", {}).get("native/bytes", {})
-    return f"{a.get('kind')}:{'+'.join(a.get('noise') or []) or 'clean'}:{'ok' if 'ok' in r else r.get('err')}"
+    kind = "valid" if a.get("kind") == "valid" else "fault"
+    return f"{kind}:{'+'.join(a.get('noise') or []) or 'clean'}:{'ok' if 'ok' in r else r.get('err')}"
 
 
 def adapt_handlers(op, a):
@@ -411,7 +438,10 @@ def wrapper_declares(xml):
 
 def covered_handlers(a, msg):
     noise = set(a.get("noise") or [])
-    if noise & {"text", "tail"} and re.search(r"<!--|<\?pi", a["xml"]) and "lxml" in msg:
+    # the listed defect: a PI inside character data (every lxml source), a comment only for lxml tree sources
+    if noise & {"text_pi", "tail_pi"} and "<?pi" in a["xml"] and msg.startswith("lxml/"):
+        return "C08-lxml-pi-text"
+    if noise & {"text_c", "tail_c"} and "<!--" in a["xml"] and msg.startswith(("lxml/lxml_tree", "lxml/lxml_element")):
         return "C08-lxml-pi-text"
     if wrapper_declares(a["xml"]) and ("native/" in msg or "event streams" in msg or msg.startswith("lxml/")):
         return "C08-wrapper-nsdecl"
